@@ -3,7 +3,7 @@ use crate::command::handlers::{
     auth, compare, define, flush, permissions, ping, remember, replay, show, store,
 };
 use crate::command::types::Command;
-use crate::engine::auth::AuthManager;
+use crate::engine::auth::{AuthManager, BYPASS_USER_ID};
 use crate::engine::schema::SchemaRegistry;
 use crate::engine::shard::manager::ShardManager;
 use crate::shared::response::render::Renderer;
@@ -11,7 +11,50 @@ use crate::shared::response::{Response, StatusCode};
 use std::sync::Arc;
 use tokio::io::{AsyncWrite, AsyncWriteExt};
 use tokio::sync::RwLock;
-use tracing::{debug, error};
+use tracing::{debug, error, warn};
+
+/// Read check for the commands that run a query outside the QUERY handler (REPLAY, comparison):
+/// same rule and same answers as `QueryCommandHandler::handle`. `"*"` (REPLAY without an event
+/// type) stands for every defined event type. Returns the refusal to send, if any.
+async fn read_refusal(
+    mut event_types: Vec<String>,
+    registry: &Arc<RwLock<SchemaRegistry>>,
+    auth_manager: Option<&Arc<AuthManager>>,
+    user_id: Option<&str>,
+) -> Option<Response> {
+    let auth_mgr = auth_manager?;
+    let Some(uid) = user_id else {
+        warn!(target: "sneldb::dispatch", "Authentication required for read command");
+        return Some(Response::error(
+            StatusCode::Unauthorized,
+            "Authentication required",
+        ));
+    };
+    // Skip permission checks for bypass user
+    if uid == BYPASS_USER_ID {
+        return None;
+    }
+    if event_types.iter().any(|event_type| event_type == "*") {
+        event_types.retain(|event_type| event_type != "*");
+        event_types.extend(registry.read().await.get_all().keys().cloned());
+        event_types.sort();
+    }
+    for event_type in &event_types {
+        if !auth_mgr.can_read(uid, event_type).await {
+            warn!(
+                target: "sneldb::dispatch",
+                user_id = uid,
+                event_type,
+                "Read permission denied"
+            );
+            return Some(Response::error(
+                StatusCode::Forbidden,
+                &format!("Read permission denied for event type '{}'", event_type),
+            ));
+        }
+    }
+    None
+}
 
 pub async fn dispatch_command<W: AsyncWrite + Unpin>(
     cmd: &Command,
@@ -67,7 +110,20 @@ pub async fn dispatch_command<W: AsyncWrite + Unpin>(
             .handle()
             .await
         }
-        Compare { .. } => {
+        Compare { queries } => {
+            // Every side reads its event type and, for a sequence, the types it links
+            let mut event_types = Vec::new();
+            for query in queries {
+                event_types.push(query.event_type.clone());
+                if let Some(sequence) = &query.event_sequence {
+                    event_types.extend(sequence.links.iter().map(|(_, t)| t.event.clone()));
+                }
+            }
+            if let Some(resp) = read_refusal(event_types, registry, auth_manager, user_id).await {
+                writer.write_all(&renderer.render(&resp)).await?;
+                writer.flush().await?;
+                return Ok(());
+            }
             compare::ComparisonCommandHandler::new(
                 cmd,
                 shard_manager,
@@ -78,7 +134,16 @@ pub async fn dispatch_command<W: AsyncWrite + Unpin>(
             .handle()
             .await
         }
-        Replay { .. } => replay::handle(cmd, shard_manager, registry, writer, renderer).await,
+        Replay { event_type, .. } => {
+            // Without an event type REPLAY reads every event type of the context
+            let event_types = vec![event_type.clone().unwrap_or_else(|| "*".to_string())];
+            if let Some(resp) = read_refusal(event_types, registry, auth_manager, user_id).await {
+                writer.write_all(&renderer.render(&resp)).await?;
+                writer.flush().await?;
+                return Ok(());
+            }
+            replay::handle(cmd, shard_manager, registry, writer, renderer).await
+        }
         ShowMaterialized { .. } => {
             show::handle(cmd, shard_manager, registry, writer, renderer).await
         }
